@@ -394,6 +394,9 @@ def parseMessage(rawMessage, oobFDs):
 
     m.serial = hval[5]
 
+    m.expectReply = not (hval[2] & 0x1)
+    m.autoStart = not (hval[2] & 0x2)
+
     for code, v in hval[6]:
         try:
             setattr(m, _hcode[code], v)
